@@ -5,7 +5,7 @@
 EXTENDS Generic, TLC
 Fns == {"Clone", "Round", "Round.default", "project.Geometry", "simplify.DouglasPeucker", "simplify.Visvalingam", "simplify.Radial",
         "planar.Area", "planar.Length", "planar.CentroidArea.area", "planar.DistanceFrom", "planar.DistanceFromWithIndex",
-        "geo.Area", "geo.Length", "geo.LengthHaversine", "clip.Geometry", "smartclip.Geometry", "tilecover.Geometry",
+        "geo.Area", "geo.Length", "geo.LengthHaversine", "clip.Geometry", "clip.Geometry.wide", "smartclip.Geometry", "tilecover.Geometry",
         "wkb.Marshal", "ewkb.Marshal", "wkt.Marshal", "geojson.Geometry", "geojson.Feature"}
 Nums == {[t |-> "num", n |-> k] : k \in {-1, 0, 1, 3}}
 VARIABLES xs, ys
